@@ -1319,3 +1319,20 @@ m('D1-restore-only-if-the-effective-mode-is-still-ours', 'C13', 'D1', 'dict_inse
   """        with __REGISTRY_LOCK:
             if _C.is_dict_insertion_ordered(namespace) == bool(mode):
                 _C.set_dict_insertion_ordered(prev, namespace)""")
+m('M5-child-of-a-leaf-through-the-leaf-factory', 'C08', 'M5', 'PyTreeSpec::Child/returns-MakeLeaf', 'src/treespec/treespec.cpp',
+  """    auto child = std::make_unique<PyTreeSpec>();
+    child->m_none_is_leaf = m_none_is_leaf;
+    child->m_namespace = m_namespace;
+    const Node& node = m_traversal.at(pos - 1);
+    EXPECT_GE(pos, node.num_nodes, "PyTreeSpec::Child() walked off start of array.");""",
+  """    if (m_traversal.at(pos - 1).kind == PyTreeKind::Leaf) {
+        return MakeLeaf(m_none_is_leaf, m_namespace);
+    }
+    auto child = std::make_unique<PyTreeSpec>();
+    child->m_none_is_leaf = m_none_is_leaf;
+    child->m_namespace = m_namespace;
+    const Node& node = m_traversal.at(pos - 1);
+    EXPECT_GE(pos, node.num_nodes, "PyTreeSpec::Child() walked off start of array.");""")
+m('CL1-dataclass-flatten-reads-the-finished-loop-variable', 'C19', 'CL1', '_register_dataclass/flatten_func reads f', 'optree/dataclasses.py',
+  """        metadata = tuple((name, getattr(obj, name)) for name in metadata_fields)""",
+  """        metadata = tuple((name, getattr(obj, f.name)) for name in metadata_fields)""")
